@@ -115,7 +115,14 @@ def basis_contexts(cx, kind, prog):
                 with qr.eigenbasis_of(ham):
                     _ = obj.data
                     obj.save(fn)
-                loaded = qr.load_parcel(fn)
+                try:
+                    with qr.eigenbasis_of(ham2):
+                        loaded = qr.load_parcel(fn)
+                        _ = loaded.data
+                except Exception as e:
+                    cx.fail("loaded_readable", "reading the loaded object's data inside another context raised "
+                                               "%s: %s" % (type(e).__name__, e))
+                    return
         try:
             got = loaded.data
         except Exception as e:
